@@ -780,7 +780,7 @@ class WaveSpectrum(DatasetWrapper):
         range = {NAME_F: self._range(fmin, fmax)}
 
         property = property.fillna(0)
-        return np.trapz(
+        return np.trapezoid(
             property.isel(**range) * self.e.isel(**range),  # type: ignore
             self.frequency[range],
         ) / self.m0(fmin, fmax)
